@@ -160,20 +160,34 @@ def run_plain(pool, case):
         return Resp(o[1], o[3])
 
     cfg = {"downloaders": {"fetch_plain_tle": sources}, "platforms": {}}
-    with mock.patch.object(tlefile.requests, "get", fake_get):
+    dl = []
+
+    def one_fetch():
         try:
             with common.time_limit(20):
-                r = tlefile.Downloader(cfg).fetch_plain_tle()
+                if not dl:
+                    dl.append(tlefile.Downloader(cfg))
+                r = dl[0].fetch_plain_tle()
             if not isinstance(r, dict):
-                return ["type", type(r).__name__], calls
-            res = [0, [(name, entries_of(pool, v)) for name, v in r.items()]]
+                return ["type", type(r).__name__]
+            return [0, [(name, entries_of(pool, v)) for name, v in r.items()]]
         except common.Timeout:
-            res = [7]
+            return [7]
         except BaseException as e:      # StopIteration is an Exception; keep BaseException for safety
             if isinstance(e, (KeyboardInterrupt, SystemExit)):
                 raise
-            res = [exc_code(e), type(e).__name__]
-    return res, calls
+            return [exc_code(e), type(e).__name__]
+
+    with mock.patch.object(tlefile.requests, "get", fake_get):
+        res = one_fetch()
+        first_calls = list(calls)
+        # a polling service keeps ONE Downloader and fetches again: the second answer (same outcomes served) is the one
+        # judged whenever it differs from the first
+        del calls[:]
+        res2 = one_fetch()
+        if res2 != res:
+            return res2, calls
+    return res, first_calls
 
 
 def coq_case(case, idx):
